@@ -545,6 +545,32 @@ pub fn run(tier: Tier) -> i32 {
     rep.sample(json!({"leg": "whitespace-content", "doc": wdocs[wdocs.len() / 2].0}));
     rep.absorb("whitespace-content", st);
 
+    // ---- (f1) references to entities declared in the document's own DOCTYPE: the document is read as an XML processor
+    // reads it, i.e. as the same document with the replacement text written out
+    let entdocs = [
+        ("<!DOCTYPE svg [<!ENTITY w \"10\">]><svg><rect width=\"&w;\" height=\"5\"/></svg>", "<svg><rect width=\"10\" height=\"5\"/></svg>"),
+        ("<!DOCTYPE svg [<!ENTITY copy \"&#169;\">]><svg><rect width=\"5\" height=\"5\"><title>&copy; t</title></rect><text x=\"1\" y=\"2\">&copy; 2020</text></svg>", "<svg><rect width=\"5\" height=\"5\"><title>&#169; t</title></rect><text x=\"1\" y=\"2\">&#169; 2020</text></svg>"),
+        ("<!DOCTYPE svg [<!ENTITY c 'red'> <!ENTITY d \"M0 0 L&w; 5\"> <!ENTITY w '7'>]>\n<svg><path d=\"&d;\" fill=\"&c;\"/></svg>", "<svg><path d=\"M0 0 L7 5\" fill=\"red\"/></svg>"),
+        ("<!DOCTYPE svg [<!ENTITY w \"10\">]><svg><text x=\"1\" y=\"2\"><![CDATA[&w;]]></text><!-- &w; --></svg>", "<svg><text x=\"1\" y=\"2\"><![CDATA[&w;]]></text><!-- &w; --></svg>"),
+    ];
+    let st = run_space(entdocs.len(), |i| {
+        let (with, written_out) = entdocs[i];
+        let (a, b) = (run_str(with, &Cfg::plain()), run_str(written_out, &Cfg::plain()));
+        let strip = |o: &Outcome| match o {
+            Outcome::Ok(x) => Ok(String::from_utf8_lossy(x).trim().to_string()),
+            other => Err(other.brief()),
+        };
+        let ok = strip(&a).is_ok() && strip(&a) == strip(&b);
+        CaseResult {
+            case_hash: hash64(&with),
+            nontrivial: ok,
+            outcome_hash: hash64(&format!("{a:?}")),
+            executions: 2,
+            violation: (!ok).then(|| Violation { clause: "declared-entities".into(), signature: format!("C04/declared-entities/{i}"), case: json!({"leg": "declared-entities", "input": with, "written_out": written_out}), detail: format!("{with}\n -> {}\n{written_out}\n -> {}", a.brief(), b.brief()) }),
+        }
+    });
+    rep.absorb("declared-entities", st);
+
     // ---- (f2) the root element's own style is kept when a style for the root is configured as well
     let sdocs: Vec<(&str, &str)> = vec![
         ("<svg style=\"background:red\"><rect width=\"5\" height=\"5\"/></svg>", "background:red"),
